@@ -68,6 +68,13 @@ def run_c17(tier, seed, t0):
     if rep["unreached"]:
         raise ToolError("graph replay could not reach %d states" % rep["unreached"])
     os.makedirs(os.path.join(vlib.OUT, "replays"), exist_ok=True)
+    log("[C17] reference stability: %d held-reference checks across lookups from every reachable tree, %d mismatches" % (rep["reference_checks"], rep["reference_mismatches"]))
+    if rep["contract_mismatches"] == 0 and rep["reference_mismatches"]:
+        p = os.path.join(vlib.OUT, "replays", "C17-reference.json")
+        json.dump(rep["examples"], open(p, "w"))
+        log("VIOLATION property=C17 replay=%s" % p)
+        log("  a reference handed out by a lookup denotes another element after further lookups (%d cases); first: %s" % (rep["reference_mismatches"], json.dumps(rep["examples"][0])[:300]))
+        nviol += 1
     if rep["contract_mismatches"]:
         p = os.path.join(vlib.OUT, "replays", "C17-graph-transition.json")
         json.dump(rep["examples"], open(p, "w"))
@@ -122,7 +129,7 @@ def run_c17(tier, seed, t0):
         "states": res["distinct"] + res2["distinct"], "transitions": res["generated"] + res2["generated"],
         "traces_validated_against_impl": len(hists) - len({f[1] for f in fails}),
         "model_transitions_replayed_through_impl": rep["transitions"], "model_states": rep["states"],
-        "samples": [{"history": hists[0]["id"], "events": hists[0]["events"][:6]}, {"graph_replay": {k: rep[k] for k in ("states", "transitions", "contract_mismatches", "shape_mismatches")}}],
+        "samples": [{"history": hists[0]["id"], "events": hists[0]["events"][:6]}, {"graph_replay": {k: rep[k] for k in ("states", "transitions", "contract_mismatches", "shape_mismatches", "reference_checks", "reference_mismatches")}}],
         "evaluations": rep["transitions"] + nev, "distinct_nontrivial": rep["transitions"],
         "rule": "evaluations = model transitions replayed through the real tree + recorded history events validated by TLC; distinct non-trivial = distinct (reachable tree shape with values, operation) pairs of the exhaustive model over keys 1..%d, values {1,2}, lookups incl. absent keys, consuming iteration both directions" % n,
         "exhaustive": True, "key_universe": n, "spec_drift": drift, "history_ops": ops,
@@ -186,9 +193,11 @@ def tree_scenarios(tier):
 
 def bool_scenarios(tier):
     if tier == "quick":
-        return [("bool:comb:int", 20000, 8192), ("bool:comb:diff", 20000, 2048), ("bool:comb_subject:diff", 20000, 8192), ("bool:grid:union", 2500, 8192)]
+        return [("bool:comb:int", 20000, 8192), ("bool:comb:diff", 20000, 2048), ("bool:comb_subject:diff", 20000, 8192), ("bool:grid:union", 2500, 8192),
+                ("bool:needles:int", 30000, 8192), ("bool:needles:diff", 30000, 2048)]
     return [("bool:comb:int", 250000, 8192), ("bool:comb:int", 250000, 2048), ("bool:comb:diff", 250000, 2048), ("bool:comb_subject:diff", 250000, 2048),
-            ("bool:comb:union", 100000, 8192), ("bool:grid:xor", 40000, 8192), ("bool:stair:int", 1000000, 8192), ("bool:stair:union", 1000000, 2048)]
+            ("bool:comb:union", 100000, 8192), ("bool:grid:xor", 40000, 8192), ("bool:stair:int", 1000000, 8192), ("bool:stair:union", 1000000, 2048),
+            ("bool:needles:int", 150000, 8192), ("bool:needles:int", 150000, 2048), ("bool:needles:diff", 300000, 8192)]
 
 
 def run_c18(tier, seed, t0):
